@@ -19,7 +19,7 @@ GEN = False
 THEOREMS = ["mutex_inv", "writes_by_holder", "wire_well_bracketed", "edt_adjacent", "edt_adjacent_drivers",
             "lock_free_at_end", "release_on_raise_or_cancel", "caller_programs_wf", "progress_partial",
             "progress_up", "progress", "caller_steps_bounded", "nobody_hangs", "retry_resends_whole_unit",
-            "k1_witness_old_serial_send"]
+            "refusal_leaves_the_call", "refused_writes_nothing", "k1_witness_old_serial_send"]
 TRUSTED = ["hand-written models Model/Async.lean (interleaving semantics) and Model/CallerProgram.lean "
            "(send / run_sequence of the four drivers as straight-line programs with their finally/async-with "
            "clean-up), bound to the real drivers by trace validation over explored schedules only",
@@ -29,7 +29,10 @@ ASSUMPTIONS = ["callers use send() / run_sequence() only (no caller holds transa
                "concurrent send(in_transaction=True) calls)",
                "progress / nobody_hangs: hypotheses `s.conn.up` (connected is set) and `GatewayAnswers s` (the report "
                "each waiting caller waits for is the next one in its queue) - stated in the theorems, not proved of "
-               "any gateway"]
+               "any gateway; and `NoRefusalPending s` (no caller's next step is the refusal of a frame length its "
+               "gateway cannot carry - such a caller is not stuck either: refusal_leaves_the_call shows its exception "
+               "is always enabled, leads to the clean-up, is NOT retried whatever the exceptions switch says, and "
+               "refused_writes_nothing that nothing goes on the wire)"]
 PARTIAL = ("The theorems quantify over every schedule of the MODEL and any number of callers; that the real event loop "
            "produces only interleavings the model allows is validated on the explored schedules, not proved. The model "
            "cannot exhibit: the real event loop's scheduling order, OS file-descriptor behaviour, wall-clock time, "
